@@ -21,6 +21,16 @@ NA = {
 PENDING = "static rule designed in DESIGN section 3; check not yet registered (under construction)"
 
 CHECKS = {
+ "C18": {
+  "text": "Pairing rule read => record decided on every path of the preprocessor's MIR (each read_new_file call is "
+          "self-recording or dominated in every caller by a recorder on the same include description; recorder skip "
+          "edges classified), who-may-read, first-match shape of the resolver loop, and the listing's only filter "
+          "being the `*` pseudo-file predicate. Found F2 (embed-file unlisted), repaired by a fix: commit.",
+  "note": "Scope: the modern preprocessor (all dialect sigils and the listing itself). The classic `_read` operator's "
+          "resolution is not decided. Trusts rustc MIR construction; value flow is local-level.",
+  "technique": "MIR pairing/dominance rules + value flow + who-may-call",
+  "design": "3.4",
+ },
  "C19": {
   "text": "Decides on every path of the current sources the shape that makes replacement atomic: output path reaches "
           "only the mtime test / gentle_overwrite / return value; only reviewed functions call filesystem-mutating "
